@@ -26,22 +26,37 @@ def cmul_m(A, Bm):
                 o = out[a][b]; out[a][b] = (o[0] + x[0] * y[0] - x[1] * y[1], o[1] + x[0] * y[1] + x[1] * y[0])
     return out
 
-def gen_problem(rnd, hermitian=True):
+# designed cases, run first under every seed (shapes fixed, values random): configurations a random draw of 40 cases reaches too rarely
+DESIGNED = [
+    {"hermitian": True, "sizes": [1, 3], "masks": {1: [(0, 2)]}, "order": [1]},                       # a mask whose position in the dict is not its block
+    {"hermitian": True, "sizes": [2, 1, 3], "masks": {2: [(0, 2)], 0: [(0, 1)]}, "order": [2, 0]},    # keys 0 and 2, inserted in reverse
+    {"hermitian": False, "sizes": [1, 3], "masks": {1: [(0, 2), (2, 0), (1, 0)]}, "order": [1]},
+    {"hermitian": True, "sizes": [3, 2], "masks": {0: [(0, 1)], 1: []}, "order": [1, 0]},             # an empty mask next to a partial one
+]
+
+def gen_problem(rnd, hermitian=True, force=None):
     N = rnd.choice([1, 2, 2, 3, 3, 4]); sizes = [rnd.choice([1, 1, 2, 2, 3]) for _ in range(N)]
-    while sum(sizes) > 6: sizes[rnd.randrange(N)] = 1
+    if force: sizes = list(force["sizes"]); N = len(sizes)
+    if N >= 2 and rnd.random() < 0.3: sizes[rnd.randrange(1, N)] = 3          # a block other than the first one in which a partial mask is not closed
+    while sum(sizes) > 6:
+        cand = [i for i in range(N) if sizes[i] == 2] or [i for i in range(N) if sizes[i] == 3]
+        sizes[rnd.choice(cand)] -= 1
     d = sum(sizes); blocks = sum([[b] * s for b, s in enumerate(sizes)], [])
     k = rnd.choice([1, 1, 2])
     E = []
     zb = rnd.random() < 0.2                                   # a block of H_0 may vanish identically
     offset = rnd.choice([0, 0, 0, 2 ** 17])                   # a large common offset: gaps far above atol but below 1e-5 of the level values
     for b, s in enumerate(sizes): E += [Fraction(offset + 5 * b + rnd.choice([0, 1, 2]) + (0 if zb else 1), 1) for _ in range(s)]
+    if force:
+        E = []
+        for b, s_ in enumerate(sizes): E += [Fraction(offset + 5 * b + x + 1, 1) for x in rnd.sample(range(4), s_)]   # distinct inside a block
     if all(e == 0 for e in E): E[0] = Fraction(1)
     # non-Hermitian mode: the unperturbed energies may be complex
     cE = (not hermitian) and rnd.random() < 0.4
     E = [(e, Fraction(rnd.choice([0, 0, 1, -1, 2]), rnd.choice([1, 2])) if cE else Fraction(0)) for e in E]
     cplx = rnd.random() < 0.5
     def entry():
-        if rnd.random() < 0.3: return (Fraction(0), Fraction(0))
+        if rnd.random() < (0.3 if not force else 0.1): return (Fraction(0), Fraction(0))
         re = Fraction(rnd.randint(-3, 3), rnd.choice([1, 1, 2, 3]))
         im = Fraction(rnd.randint(-3, 3), rnd.choice([1, 2])) if cplx else Fraction(0)
         return (re, im)
@@ -54,17 +69,31 @@ def gen_problem(rnd, hermitian=True):
         return m
     terms = {(0,) * k: [[E[a] if a == b else (Fraction(0), Fraction(0)) for b in range(d)] for a in range(d)]}
     for n in itertools.product(range(3), repeat=k):
-        if 0 < sum(n) <= 2 and (rnd.random() < 0.7 or (k >= 2 and n == (1,) * k)): terms[n] = mat()      # with several parameters a mixed order is always there
-    mode = rnd.choice(["none", "tuple", "dict"])
+        if 0 < sum(n) <= 2 and (rnd.random() < 0.7 or force or (k >= 2 and n == (1,) * k)): terms[n] = mat()      # with several parameters a mixed order is always there
+    mode = rnd.choice(["none", "tuple", "dict"]) if not force else "designed"
     fd = {"kind": "none"}; fd_py = ()
     off = [0]
     for s in sizes: off.append(off[-1] + s)
     if mode == "tuple":
         bl = [b for b in range(N) if rnd.random() < 0.6]; fd = {"kind": "tuple", "blocks": bl}; fd_py = tuple(bl)
+    elif mode == "designed":
+        masks = []; fd_py = {}
+        for b in force["order"]:
+            sz = sizes[b]; m = [[0] * sz for _ in range(sz)]
+            for (x, y) in force["masks"][b]:
+                m[x][y] = 1
+                if hermitian: m[y][x] = 1
+            full = [0] * (d * d)
+            for x in range(sz):
+                for y in range(sz): full[(off[b] + x) * d + off[b] + y] = m[x][y]
+            masks.append({"block": b, "mask": full}); fd_py[b] = np.array(m, dtype=bool)
+        fd = {"kind": "dict", "masks": masks}
     elif mode == "dict":
         masks = []; fd_py = {}
-        for b in range(N):
-            if rnd.random() < 0.6:
+        skip_first = N >= 2 and rnd.random() < 0.4               # keys that are not 0..m-1: a mask's position in the dictionary is not its block
+        border = list(range(N)); rnd.shuffle(border)                 # and the insertion order is arbitrary
+        for b in border:
+            if rnd.random() < 0.6 and not (skip_first and b == 0):
                 s = sizes[b]; m = [[0] * s for _ in range(s)]
                 for x in range(s):
                     for y in range(x + 1, s):
@@ -403,7 +432,9 @@ def main(seed, ncases, driver, out, mode="all"):
         if skip(c): continue
         rnd = case_rnd(seed, c)
         hermitian = (rnd.random() < 0.6) if mode == "all" else False
-        P = gen_problem(rnd, hermitian)
+        force = DESIGNED[c] if c < len(DESIGNED) and (mode == "all" or not DESIGNED[c]["hermitian"]) else None
+        if force: hermitian = force["hermitian"]
+        P = gen_problem(rnd, hermitian, force)
         maxn = (3,) if P["k"] == 1 else (2, 1)
         reqs = [(nm, i, j, n) for n in itertools.product(*[range(m + 1) for m in maxn]) for nm in ("H_tilde", "U", "U†") for i in range(P["N"]) for j in range(P["N"])]
         rnd.shuffle(reqs)
